@@ -83,6 +83,7 @@ theorem tensorRhs_result {S : Sem V} {ρ : Store V} (hρ : AllT ρ) {e : Expr} (
           · simp only [hne, if_false] at he
             obtain ⟨v, _, h⟩ := single_some he
             exact ⟨v, h⟩
+  | subscript base idx => unfold evalExpr at he; cases he
   | other us => unfold evalExpr at he; cases he
 
 theorem tensorRhs_results {S : Sem V} {ρ : Store V} (hρ : AllT ρ) : ∀ {es : List Expr} {pvs : List (PV V)},
@@ -839,6 +840,146 @@ theorem castInputs_cast {sig : Sig} {as xs : List Name} {ns : List Node} {s s' :
     | none => simp only [hbs] at h; cases h
     | some bs => simp only [hbs] at h; exact castArgs_cast _ _ h
 
+theorem const1d_cast {c c' : IntCache} {v : Int} {x : Name} {ns : List Node} {s s' : St}
+    (h : const1d c v s = .ok ((x, ns, c'), s')) : CastOK s s' := by
+  unfold const1d at h
+  cases hf : cacheFind c v with
+  | some n =>
+    simp only [hf] at h
+    obtain ⟨_, e2⟩ := pure_ok h
+    subst e2
+    exact CastOK.refl _
+  | none =>
+    simp only [hf] at h
+    mbind h with p s1 h1
+    obtain ⟨n, ns'⟩ := p
+    try dsimp only at h
+    obtain ⟨_, e2⟩ := pure_ok h
+    subst e2
+    exact emitConst_cast h1
+
+theorem convSlice_cast {c c' : IntCache} {lo up st : Option Int} {r : Name × Name × Name} {ns : List Node}
+    {s s' : St} (h : convSlice c lo up st s = .ok ((r, ns, c'), s')) : CastOK s s' := by
+  unfold convSlice at h
+  mbind h with p s1 h1
+  obtain ⟨sn, ns1, c1⟩ := p
+  try dsimp only at h
+  mbind h with p s2 h2
+  obtain ⟨ln, ns2, c2⟩ := p
+  try dsimp only at h
+  mbind h with p s3 h3
+  obtain ⟨un, ns3, c3⟩ := p
+  try dsimp only at h
+  obtain ⟨_, e2⟩ := pure_ok h
+  subst e2
+  exact (const1d_cast h1).trans ((const1d_cast h2).trans (const1d_cast h3))
+
+theorem convSlices_cast : ∀ (els : List SliceEl) {c c' : IntCache}
+    {r : List Name × List Name × List Name × List Name} {ns : List Node} {s s' : St},
+    convSlices c els s = .ok ((r, ns, c'), s') → CastOK s s' := by
+  intro els
+  induction els with
+  | nil =>
+    intro c c' r ns s s' h
+    unfold convSlices at h
+    obtain ⟨_, e2⟩ := pure_ok h
+    subst e2
+    exact CastOK.refl _
+  | cons el rest ih =>
+    intro c c' r ns s s' h
+    obtain ⟨ax, lo, up, st⟩ := el
+    unfold convSlices at h
+    mbind h with p s1 h1
+    obtain ⟨an, ns0, c0⟩ := p
+    try dsimp only at h
+    mbind h with p s2 h2
+    obtain ⟨⟨l, u, sn⟩, ns1, c1⟩ := p
+    try dsimp only at h
+    mbind h with p s3 h3
+    obtain ⟨⟨ls, us, as, ss⟩, ns2, c2⟩ := p
+    try dsimp only at h
+    obtain ⟨_, e2⟩ := pure_ok h
+    subst e2
+    exact (const1d_cast h1).trans ((convSlice_cast h2).trans (ih h3))
+
+theorem pickOrConcat_cast {cand : Name} {xs : List Name} {x : Name} {ns : List Node} {s s' : St}
+    (h : pickOrConcat cand xs s = .ok ((x, ns), s')) : CastOK s s' := by
+  have hc : ∀ {s s' : St} {x : Name} {ns : List Node},
+      (do let r ← genUnique cand
+          pure (r, [Node.op "" "Concat" (xs.map some) [r] [("axis", AttrV.const "i:0")]]) : M (Name × List Node)) s
+        = .ok ((x, ns), s') → CastOK s s' := by
+    intro s s' x ns h
+    mbind h with r s1 h1
+    obtain ⟨_, e2⟩ := pure_ok h
+    subst e2
+    exact genUnique_cast h1
+  unfold pickOrConcat at h
+  cases xs with
+  | nil => exact hc h
+  | cons a t =>
+    cases t with
+    | nil =>
+      simp only at h
+      obtain ⟨_, e2⟩ := pure_ok h
+      subst e2
+      exact CastOK.refl _
+    | cons b t' => exact hc h
+
+theorem convSubscript_cast {var : Name} {tgt : Option Name} {idx : List Idx} {x : Name} {ns : List Node}
+    {s s' : St} (h : convSubscript var tgt idx s = .ok ((x, ns), s')) : CastOK s s' := by
+  unfold convSubscript at h
+  mbind h with target s0 h0
+  have k0 := genUnique_cast h0
+  try dsimp only at h
+  by_cases hc : (!(slicedOf 0 idx).isEmpty || decide ((scalarsOf 0 idx).length > 1)) = true
+  · rw [if_pos hc] at h
+    mbind h with p s1 h1
+    obtain ⟨⟨starts, ends, axes, steps⟩, ns1, cc⟩ := p
+    try dsimp only at h
+    mbind h with p s2 h2
+    obtain ⟨sv, n1⟩ := p
+    try dsimp only at h
+    mbind h with p s3 h3
+    obtain ⟨ev, n2⟩ := p
+    try dsimp only at h
+    mbind h with p s4 h4
+    obtain ⟨av, n3⟩ := p
+    try dsimp only at h
+    mbind h with p s5 h5
+    obtain ⟨tv, n4⟩ := p
+    try dsimp only at h
+    have k5 := k0.trans ((convSlices_cast _ h1).trans ((pickOrConcat_cast h2).trans ((pickOrConcat_cast h3).trans
+      ((pickOrConcat_cast h4).trans (pickOrConcat_cast h5)))))
+    by_cases hsc : (scalarsOf 0 idx).isEmpty = true
+    · rw [if_pos hsc] at h
+      obtain ⟨_, e2⟩ := pure_ok h
+      subst e2
+      exact k5
+    · rw [if_neg hsc] at h
+      mbind h with sliced s6 h6
+      mbind h with p s7 h7
+      obtain ⟨sq, n5⟩ := p
+      try dsimp only at h
+      obtain ⟨_, e2⟩ := pure_ok h
+      subst e2
+      exact k5.trans ((genUnique_cast h6).trans (emitConst_cast h7))
+  · rw [if_neg hc] at h
+    cases hsc : scalarsOf 0 idx with
+    | nil =>
+      simp only [hsc] at h
+      obtain ⟨_, e2⟩ := pure_ok h
+      subst e2
+      exact k0
+    | cons p rest =>
+      obtain ⟨ax, k⟩ := p
+      simp only [hsc] at h
+      mbind h with q s1 h1
+      obtain ⟨iv, n1⟩ := q
+      try dsimp only at h
+      obtain ⟨_, e2⟩ := pure_ok h
+      subst e2
+      exact k0.trans (emitConst_cast h1)
+
 mutual
 theorem convExpr_cast (L : Locals) : ∀ (e : Expr) (tgt : Option Name) {x : Name} {ns : List Node} {s s' : St},
     convExpr L e tgt s = .ok ((x, ns), s') → CastOK s s'
@@ -924,6 +1065,17 @@ theorem convExpr_cast (L : Locals) : ∀ (e : Expr) (tgt : Option Name) {x : Nam
         obtain ⟨_, e2⟩ := pure_ok h
         subst e2
         exact c123.trans (genUnique_cast h4)
+  | .subscript base idx, tgt, x, ns, s, s', h => by
+    unfold convExpr at h
+    mbind h with p s1 h1
+    obtain ⟨v, ns1⟩ := p
+    try dsimp only at h
+    mbind h with p s2 h2
+    obtain ⟨r, ns2⟩ := p
+    try dsimp only at h
+    obtain ⟨_, e2⟩ := pure_ok h
+    subst e2
+    exact (convExpr_cast L base none h1).trans (convSubscript_cast h2)
   | .other us, tgt, x, ns, s, s', h => by unfold convExpr at h; exact (failM_ok h).elim
 theorem convArgs_cast (L : Locals) : ∀ (es : List Expr) {xs : List Name} {ns : List Node} {s s' : St},
     convArgs L es s = .ok ((xs, ns), s') → CastOK s s'
@@ -1510,6 +1662,7 @@ theorem convTop_if_sim (S : Sem V) (fuel : Nat) (hConst : ∀ l, ∃ c, constOf 
         cases he
         unfold convTop at h
         mbind h with p s1 h1
+        have h1 := (onlyLast_ok h1).2
         obtain ⟨outs1, ns1⟩ := p
         try dsimp only at h
         have hall : ∃ single, convRetAll L inputs single es 0 [] s = .ok ((outs1, ns1), s1) := by
